@@ -14,7 +14,7 @@ from vmon.libutil import monitored
 
 LEVEL = "exploration"
 SHARDS = {"quick": 8, "thorough": 16}
-MUST = ["read_as_int.evaluations", "read_as_bytes.evaluations", "insitu.reads", "wide.reads", "deep.reads", "mutable_source.reads", "int_subclass_widths.reads", "debug_logging.reads", "after_overlong.reads", "indomain.boundary_reads", "stateful.reads"]
+MUST = ["optimized_interpreter.reads", "read_as_int.evaluations", "read_as_bytes.evaluations", "insitu.reads", "wide.reads", "deep.reads", "mutable_source.reads", "int_subclass_widths.reads", "debug_logging.reads", "after_overlong.reads", "indomain.boundary_reads", "stateful.reads"]
 RULE = ("every read_as_int/read_as_bytes/_extract_bits call made by the workload is checked by a postcondition "
         "against int(bitstring[p:p+n],2); workload = all (p,n) with p+n<=48 over 24 structured 6-byte buffers "
         "(exhaustive), all 64 (p%8,n%8) classes at widths up to 4096 bytes, seeded random reads, sequential "
@@ -38,8 +38,63 @@ def structured_buffers(rng):
     return bufs[:24]
 
 
+OPT_SCRIPT = r"""
+import json, random, sys
+from space_packet_parser.packets import RawPacketData
+rng = random.Random(int(sys.argv[1]))
+n_reads = 0
+for case in range(int(sys.argv[2])):
+    buf = bytes(rng.getrandbits(8) for _ in range(rng.choice([1, 2, 6, 8, 9, 16, 33])))
+    whole, total = int.from_bytes(buf, "big"), 8 * len(buf)
+    r = RawPacketData(buf)
+    pos = 0
+    while pos < total:
+        n = rng.randrange(1, min(total - pos, 70) + 1)
+        as_bytes = rng.random() < 0.4
+        want_int = (whole >> (total - pos - n)) & ((1 << n) - 1)
+        if as_bytes:
+            got = r.read_as_bytes(n)
+            want = (want_int << (-n % 8)).to_bytes((n + 7) // 8, "big") if n % 8 and pos % 8 == 0 else want_int.to_bytes((n + 7) // 8, "big")
+            if pos % 8 == 0 and n % 8 == 0:
+                want = buf[pos // 8:(pos + n) // 8]
+            ok = got == want or n % 8 != 0          # padding conventions of partial bytes are checked elsewhere; here: the cursor
+        else:
+            got = r.read_as_int(n)
+            ok = got == want_int
+        n_reads += 1
+        if not ok or r.pos != pos + n:
+            print(json.dumps({"ok": False, "buf": buf.hex(), "pos": pos, "n": n, "as_bytes": as_bytes, "got": repr(got), "cursor_after": r.pos, "reads": n_reads}))
+            sys.exit(0)
+        pos += n
+print(json.dumps({"ok": True, "reads": n_reads, "optimize": sys.flags.optimize}))
+"""
+
+
+def optimized_interpreter(ctx):
+    """the same read sequences in child interpreters started with -O and -OO (assert statements and docstrings stripped): value and
+    cursor after every read"""
+    import json
+    import subprocess
+    from vmon.core import REPO, HarnessError
+    for flag in ("-O", "-OO"):
+        env = dict(os.environ, PYTHONPATH=REPO)
+        env.pop("PYTHONOPTIMIZE", None)
+        p = subprocess.run([sys.executable, flag, "-c", OPT_SCRIPT, str(ctx.seed), str(ctx.size(300, 6000))], capture_output=True, text=True, timeout=900, env=env)
+        if p.returncode != 0 or not p.stdout.strip():
+            raise HarnessError(f"python {flag} child failed: {p.stderr[-500:]}")
+        res = json.loads(p.stdout.strip().splitlines()[-1])
+        ctx.count("evaluations", res["reads"])
+        ctx.count("optimized_interpreter.reads", res["reads"])
+        ctx.sig("interpreter", flag)
+        if not res["ok"]:
+            ctx.violation(f"optimized-interpreter/{'read_as_bytes' if res['as_bytes'] else 'read_as_int'}/{'cursor' if res['cursor_after'] != res['pos'] + res['n'] else 'value'}",
+                          f"under python {flag}: a {res['n']}-bit read at cursor {res['pos']} returned {res['got']} and left the cursor at {res['cursor_after']}", res)
+
+
 def run(ctx):
     bits.selftest()
+    if ctx.shard == 5 % ctx.nshards:
+        optimized_interpreter(ctx)
     from space_packet_parser import packets
     contracts.arm_reads(ctx)
     RPD = packets.RawPacketData
